@@ -148,10 +148,12 @@ Section Merkle.
        (map (fun t => (fst t, snd t ++ [snd r0])) (fst l0) ++ map (fun t => (fst t, snd t ++ [snd l0])) (fst r0),
         inner_hash (snd l0) (snd r0))).
     cbv zeta. unfold trails.
-    rewrite (trails_fuel_indep (S (length l)) (length (firstn (splitk (length (x :: y :: l))) (x :: y :: l))))
-      by (rewrite ?firstn_length; cbn [length] in *; lia).
-    rewrite (trails_fuel_indep (S (length l)) (length (skipn (splitk (length (x :: y :: l))) (x :: y :: l))))
-      by (rewrite ?skipn_length; cbn [length] in *; lia).
+    rewrite (trails_fuel_indep (S (length l)) (length (firstn (splitk (length (x :: y :: l))) (x :: y :: l)))
+                               (firstn (splitk (length (x :: y :: l))) (x :: y :: l)))
+      by (rewrite ?firstn_length, ?skipn_length; cbn [length] in *; lia).
+    rewrite (trails_fuel_indep (S (length l)) (length (skipn (splitk (length (x :: y :: l))) (x :: y :: l)))
+                               (skipn (splitk (length (x :: y :: l))) (x :: y :: l)))
+      by (rewrite ?firstn_length, ?skipn_length; cbn [length] in *; lia).
     reflexivity.
   Qed.
 
@@ -174,7 +176,7 @@ Section Merkle.
   Proof. reflexivity. Qed.
 
   Lemma split_z n : Z.of_N (split_point (Z.to_N (Z.of_nat n))) = Z.of_nat (splitk n).
-  Proof. unfold splitk. rewrite <- nat_N_Z, Z2N.id by lia. rewrite N2Z.id. rewrite N_nat_Z. reflexivity. Qed.
+  Proof. unfold splitk. rewrite N_nat_Z. rewrite <- (nat_N_Z n). rewrite N2Z.id. reflexivity. Qed.
 
   (* ---------------------------------------------------------------- completeness *)
 
